@@ -43,6 +43,14 @@ pub enum Op {
     CloneSwap,
     /// drop all kept copies
     DropCopies,
+    /// a valid interpolation-weight update (equal weights) on slot 0 = duration, 1 = parameter
+    /// weights of the stream, 2 = GV weights of the stream: another setter family on the same
+    /// Condition, which must leave every range-limited setting alone
+    InterpolationWeights(usize, usize),
+    /// Condition::load_model on the engine's own voices: the voice-derived settings (rate, frame
+    /// period, thresholds, GV weights, alpha) return to the voice's defaults, the caller's settings
+    /// (volume, speed, alignment flag, beta, half tone) stay
+    Reload,
 }
 
 #[derive(Debug, Clone, Serialize)]
@@ -200,8 +208,11 @@ impl Prop for SetterHistory {
         let nstream = 3;
         let ops: Vec<Op> = (0..n)
             .map(|_| match t.below(12) {
-                10 => *t.pick(&[Op::CloneKeep, Op::CloneSwap, Op::CloneKeep]),
-                11 => *t.pick(&[Op::CloneSwap, Op::DropCopies, Op::CloneKeep]),
+                10 => {
+                    let (slot, stream) = (t.below(3), t.below(nstream));
+                    *t.pick(&[Op::CloneKeep, Op::CloneSwap, Op::InterpolationWeights(slot, stream), Op::InterpolationWeights(2, stream)])
+                }
+                11 => *t.pick(&[Op::CloneSwap, Op::DropCopies, Op::CloneKeep, Op::Reload]),
                 0 => Op::Alpha(special_f64(t)),
                 1 => Op::Beta(special_f64(t)),
                 2 => Op::MsdThreshold(t.below(nstream), special_f64(t)),
@@ -255,6 +266,7 @@ impl Prop for SetterHistory {
             beta: 0.0,
             ht: 0.0,
         };
+        let defaults = model.clone();
         compare("fresh engine", &observe(&cond, n), &model)?;
         // a second, independently built Condition must agree (load_model is the only source of defaults)
         let mut fresh = Condition::default();
@@ -322,6 +334,27 @@ impl Prop for SetterHistory {
                     kept.push((std::mem::replace(&mut cond, c2), model.clone(), i));
                 }
                 Op::DropCopies => kept.clear(),
+                Op::InterpolationWeights(slot, stream) => {
+                    let nv = engine.voices.len();
+                    let w = vec![1.0 / nv as f64; nv];
+                    let iw = cond.get_interporation_weight_mut();
+                    let r = match slot {
+                        0 => iw.set_duration(&w),
+                        1 => iw.set_parameter(stream, &w),
+                        _ => iw.set_gv(stream, &w),
+                    };
+                    ensure!(r.is_ok(), "interpolation-weights", "equal interpolation weights {:?} rejected", w);
+                }
+                Op::Reload => {
+                    if cond.load_model(&engine.voices).is_err() {
+                        fail!("load_model", "Condition::load_model failed on the engine's own voices");
+                    }
+                    model.sf = defaults.sf;
+                    model.fp = defaults.fp;
+                    model.thr = defaults.thr.clone();
+                    model.gvw = defaults.gvw.clone();
+                    model.alpha = defaults.alpha;
+                }
             }
             // copies made earlier are independent objects: later setter calls must not reach them
             for (copy, m, at) in &kept {
